@@ -36,7 +36,7 @@ def run(ctx):
                 "backslash-newline continuation of single blanks with optional spaces and interleaved comment lines, repeated headers, optional final newline) "
                 "+ a mutation stream for model-vs-implementation agreement; non-trivial = rendering differs from the canonical one; distinct = distinct texts")
     rng = ctx.rng
-    models = filter_models(ctx, [gen_units.gen_model(rng) for _ in range(ctx.volume(6000, 100000))])
+    models = filter_models(ctx, [gen_units.gen_model(rng) for _ in range(ctx.volume(6000, 30000))])
     texts = [gen_units.render(rng, m, True) for m in models]
     texts2 = [gen_units.render(rng, m, True) for m in models]
     canon = [gen_units.render(rng, m, False) for m in models]
@@ -70,7 +70,7 @@ def run(ctx):
                              "what": "continuation followed by a line starting with '[': read as %s, systemd joins the line (%s)" % (dump_of(bo), gen_units.merged(bm)),
                              "class": "BracketAfterContinuation"})
     # mutation stream: model and implementation agree on arbitrary (also malformed) texts
-    muts = [gen_units.mutate(rng, t) for t in texts[: ctx.volume(6000, 80000)]]
+    muts = [gen_units.mutate(rng, t) for t in texts[: ctx.volume(6000, 30000)]]
     mi = vlib.run_impl([case_line("parse", t) for t in muts])
     mm = vlib.run_model([case_line("parse", t) for t in muts]) if ctx.model_ok else mi
     for t, a, b in zip(muts, mi, mm):
